@@ -1124,3 +1124,44 @@ cJSON *shim_get_pointer_errno(cJSON *object, const char *pointer, int case_sensi
     errno = e;
     return case_sensitive ? cJSONUtils_GetPointerCaseSensitive(object, pointer) : cJSONUtils_GetPointer(object, pointer);
 }
+
+/* "never modifies its arguments": hash of every byte a tree consists of - the raw node structs (all bits of `type`, the link
+ * pointers, the value fields), the string and key bytes.  Reference nodes' borrowed children/strings are not followed. */
+static uint64_t rawhash_bytes(uint64_t h, const void *p, size_t n)
+{
+    const unsigned char *b = (const unsigned char *)p;
+    size_t i;
+    for (i = 0; i < n; i++)
+    {
+        h ^= b[i];
+        h *= 1099511628211ULL;
+    }
+    return h;
+}
+
+uint64_t shim_tree_rawhash(const cJSON *n)
+{
+    uint64_t h = 1469598103934665603ULL;
+    /* explicit stack: siblings iterate, children recurse (depth bounded by the callers) */
+    for (; n != NULL; n = n->next)
+    {
+        h = rawhash_bytes(h, n, sizeof(*n));
+        if (n->string != NULL)
+        {
+            h = rawhash_bytes(h, n->string, strlen(n->string) + 1);
+        }
+        if (!(n->type & cJSON_IsReference))
+        {
+            if (n->valuestring != NULL)
+            {
+                h = rawhash_bytes(h, n->valuestring, strlen(n->valuestring) + 1);
+            }
+            if (n->child != NULL)
+            {
+                h ^= shim_tree_rawhash(n->child);
+                h *= 1099511628211ULL;
+            }
+        }
+    }
+    return h;
+}
